@@ -68,6 +68,7 @@ def C01(F, rep, tier, cx):
     RF.C1(F, rep, cx.FL)
     RF.S2S3(F, rep, cx.FL, {'S3'})
     RF.F3p(F, rep, cx.FL)   # container payload is what its method field says (compress <-> uncompress agree)
+    RF.P4(F, rep, cx.FL)    # the stream never discards bytes that have not been read
 
 
 def C02(F, rep, tier, cx):
@@ -219,6 +220,7 @@ def C10(F, rep, tier, cx):
     RP.K5(F, rep, cx.R, cx.FL, ('BLF', 'alloc', 'other'), 'all-edges')
     RF.T1(F, rep, cx.FL)
     RF.DN(F, rep, cx.FL)
+    RF.B7(F, rep)
 
 
 def C11(F, rep, tier, cx):
@@ -234,6 +236,7 @@ def C11(F, rep, tier, cx):
 def C12(F, rep, tier, cx):
     """P1 finite capacities configured; P2 every insertion preceded by a back-pressure wait; P3 dropOldData on every committing path"""
     RP.P(F, rep, cx.R, cx.FL, cx.ws())
+    RF.P4(F, rep, cx.FL)
 
 
 def C13(F, rep, tier, cx):
